@@ -75,6 +75,36 @@ pub fn line(l: &str) -> String {
             Err(e) => describe(&e),
         };
     }
+    // `X <json>`: {"main": src, "mods": {path: src}}: run /t/main.ts with the modules supplied on demand,
+    // report the error with location and trace
+    if let Some(body) = l.strip_prefix("X ") {
+        let v: serde_json::Value = match serde_json::from_str(body) {
+            Ok(v) => v,
+            Err(_) => return "bad-case".into(),
+        };
+        let main = v["main"].as_str().unwrap_or("").to_string();
+        let (mut interp, _log) = prog::new_interp();
+        let mut r = interp.prepare(&main, Some(ModulePath::new("/t/main.ts")));
+        for _ in 0..2_000_000 {
+            match r {
+                Ok(tsrun::StepResult::Continue) => r = interp.step(),
+                Ok(tsrun::StepResult::NeedImports(reqs)) => {
+                    for q in reqs.iter() {
+                        let path = q.resolved_path.as_str().to_string();
+                        if let Some(src) = v["mods"][&path].as_str() {
+                            if let Err(e) = interp.provide_module(ModulePath::new(path), src) {
+                                return describe(&e);
+                            }
+                        }
+                    }
+                    r = interp.step();
+                }
+                Ok(_) => return "OK".into(),
+                Err(e) => return describe(&e),
+            }
+        }
+        return "ERR budget".into();
+    }
     "bad-case".into()
 }
 
